@@ -32,6 +32,12 @@ CHECKS = {
  "C19": ("bounded-exhaustive program-space enumeration (<=k deviations, every admissible non-deprecated derive on each enum) compiled under three configurations (no_std/no alloc, renamed strum path, shadowed core/std); per-program diagnostic attribution; one-bit observation",
          "Every enum of the bounded space carries all derives it admits and is type-checked by rustc in a #![no_std] crate without alloc, in a crate where strum is only reachable under another path, and next to local modules named core/std; any diagnostic is attributed to its program. The observation per (program, configuration) is rustc's accept/reject, so what is enumerated is the program/configuration space.",
          "trusted: rustc name resolution and type checking, the admissible-derive table; check-only build", "DESIGN.md §4 C19"),
+ "C02": ("bounded-exhaustive program-space enumeration (<=k deviations incl. all 16 style strings) on compiled derive output; every printed form and every get_serializations entry parsed back; membership + round-trip oracle",
+         "For every enum of the bounded space and every enabled variant, each string produced by Display/AsRefStr/IntoStaticStr and each element of get_serializations is parsed back with the real parser and must yield the same variant with default payloads; each printed string must also be a member of the reference spelling list, so a wrong name cannot cancel out on both sides.",
+         "trusted: rustc, derived Debug, generated constructors, vf-core R-spellings/R-case", "DESIGN.md §4 C02"),
+ "C03": ("bounded-exhaustive program-space enumeration (all permutations of serialize literals of distinct byte lengths, prefixes, all 16 styles, const_into_str) on compiled twin enums; seven observations per variant vs reference name",
+         "For every enum of the bounded space seven string-producing paths (format!, as_ref, as_static, From by value/by reference, const into_str, ToString twin) and VariantNames::VARIANTS are compared with the reference canonical name for every variant; literals are chosen so that longest-by-bytes differs from last/first/alphabetical/longest-by-chars.",
+         "trusted: rustc, vf-core R-name/R-case, generated constructor expressions; equal-length ties excluded (statement says 'longest')", "DESIGN.md §4 C03"),
 }
 PENDING = {}
 
